@@ -10,7 +10,7 @@ W=/root/wt/$N
 mkdir -p /root/wt
 git -C "$V" worktree add -q -b "wt-$N" "$W" HEAD
 # compiled Coq files next to their sources; build directory (own cargo target dir: .build/cargo)
-(cd "$V" && find coq -name '*.vo' -o -name '*.vos' -o -name '*.vok' -o -name '*.glob' -o -name '.*.aux' | cpio -pdm --quiet "$W")
+rsync -a --include="*/" --include="*.vo" --include="*.vos" --include="*.vok" --include="*.glob" --include=".*.aux" --exclude="*" "$V/coq/" "$W/coq/"
 mkdir -p "$W/.build"
 for d in ocaml cargo; do
   [ -d "$V/.build/$d" ] && cp -a "$V/.build/$d" "$W/.build/$d"
